@@ -111,7 +111,7 @@ CLAIMS["C13"] = {
 CLAIMS["C17"] = {
     "technique": "rapid-drawn programs and schedules over the yield-instrumented context wrappers (operation, canceller and watcher goroutines as scheduler tasks), quiescence oracle with a deadline-recording decorator",
     "engine": "sched",
-    "text": "The harness owns the schedule of netctx.Conn, netctx.PacketConn and connctx over net.Pipe: every lock/channel/select/WaitGroup operation and go statement of the three wrapper files yields to the controller, so 'the context fires while data is being handed over' and 'the watcher sees ctx.Done after the read returned' are drawn choices. At quiescence: every operation whose context is done has returned; 0 bytes => exactly the context's error; bytes received == bytes reported written (+ a prefix of a write in flight); a decorator around the wrapped conn shows no deadline left after any returned operation. Exploration of drawn schedules.",
+    "text": "The harness owns the schedule of netctx.Conn, netctx.PacketConn and connctx over net.Pipe: every lock/channel/select/WaitGroup operation and go statement of the three wrapper files yields to the controller, so 'the context fires while data is being handed over' and 'the watcher sees ctx.Done after the read returned' are drawn choices. At quiescence: every operation whose context is done has returned; 0 bytes => exactly the context's error; bytes received == bytes reported written (+ a prefix of a write in flight); a decorator around the wrapped conn shows no deadline left after any returned operation. A second, free-running variant runs drawn programs on real goroutines and the real clock (stream wrappers over net.Pipe, netctx.PacketConn over a loopback UDP pair) with contexts that time out or are cancelled 0..2 ms into the operation, followed by probe reads with fresh contexts until everything reported written has arrived: same per-operation rules, byte/message conservation in order, nothing beyond. Exploration of drawn schedules and timings.",
     "note": "Trusted: net.Pipe as the wrapped connection (atomic for the scheduler), goroutine wait states from runtime.Stack. Wrapped connections that ignore deadlines are outside the statement.",
     "design_ref": "DESIGN.md §3 C17",
 }
